@@ -30,4 +30,4 @@ def run(res, only=None):
 def replay(res, path, only=None):
     import json
     fam = json.load(open(path)).get("case", {}).get("fam")
-    return core.generic_replay(res, path, "lin" if fam == "lin" else "rot", env_keys=())
+    return core.replay_dispatch(res, path, "lin" if fam == "lin" else "rot", env_keys=())
